@@ -105,17 +105,31 @@ def sizeF : List (String × Val) → Nat
   | (_, v) :: fs => 1 + size v + sizeF fs
 end
 
+mutual
 /-- `Typed::as_type` — the run-time tag -/
-partial def asType : Val → Ty
+def asType : Val → Ty
   | .bool _ => .bool | .int _ => .int | .float _ => .float | .str _ => .str | .unit => .void
   | .arr t _ => .arr t
-  | .tup es => .tup (es.map asType)
-  | .struct fs => .struct (fs.map fun (k, v) => (k, asType v))
+  | .tup es => .tup (asTypeL es)
+  | .struct fs => .struct (asTypeF fs)
   | .cell _ t => .cell t
   | .fn _ ps r _ _ _ => .fn (ps.map (·.2)) r
+termination_by v => size v
+decreasing_by all_goals (simp only [size]; omega)
+def asTypeL : List Val → List Ty
+  | [] => []
+  | v :: vs => asType v :: asTypeL vs
+termination_by vs => sizeL vs
+decreasing_by all_goals (simp only [sizeL]; omega)
+def asTypeF : List (String × Val) → List (String × Ty)
+  | [] => []
+  | (k, v) :: fs => (k, asType v) :: asTypeF fs
+termination_by fs => sizeF fs
+decreasing_by all_goals (simp only [sizeF]; omega)
+end
 
 /-- `Array::from(elements)`: the stored element type is the join of the elements' tags -/
-def mkArray (es : List Val) : Val := .arr (Ty.concatL (es.map asType)) es
+def mkArray (es : List Val) : Val := .arr (Ty.concatL (asTypeL es)) es
 
 end Val
 end Ssl
